@@ -111,17 +111,23 @@ fn t_sev(e: &SerializableEvent) -> Tree {
     obj(vec![
         ("event_type", Tree::Str(e.event_type.clone())),
         ("timestamp_ms", Tree::Int(e.timestamp_ms as i128)),
+        ("timestamp_subms_ns", Tree::Int(e.timestamp_subms_ns as i128)),
         ("fields", map_t(&e.fields, t_sv)),
     ])
 }
 fn t_sevs(l: &[SerializableEvent]) -> Tree { Tree::Arr(l.iter().map(t_sev).collect()) }
 fn t_pwc(p: &PartitionedWindowCheckpoint) -> Tree {
-    obj(vec![("events", t_sevs(&p.events)), ("window_start_ms", opt_i(p.window_start_ms))])
+    obj(vec![("events", t_sevs(&p.events)), ("window_start_ms", opt_i(p.window_start_ms)),
+        ("events_since_emit", p.events_since_emit.map(|n| Tree::Int(n as i128)).unwrap_or(Tree::Null)),
+        ("window_start_subms_ns", Tree::Int(p.window_start_subms_ns as i128))])
 }
 fn t_wc(w: &WindowCheckpoint) -> Tree {
     obj(vec![
         ("events", t_sevs(&w.events)), ("window_start_ms", opt_i(w.window_start_ms)),
         ("last_emit_ms", opt_i(w.last_emit_ms)), ("partitions", map_t(&w.partitions, t_pwc)),
+        ("events_since_emit", w.events_since_emit.map(|n| Tree::Int(n as i128)).unwrap_or(Tree::Null)),
+        ("window_start_subms_ns", Tree::Int(w.window_start_subms_ns as i128)),
+        ("last_emit_subms_ns", Tree::Int(w.last_emit_subms_ns as i128)),
     ])
 }
 fn t_run(r: &RunCheckpoint) -> Tree {
@@ -137,6 +143,9 @@ fn t_run(r: &RunCheckpoint) -> Tree {
         ("invalidated", Tree::Bool(r.invalidated)),
         ("pending_negation_count", Tree::Int(r.pending_negation_count as i128)),
         ("kleene_events", r.kleene_events.as_ref().map(|l| t_sevs(l)).unwrap_or(Tree::Null)),
+        ("and_branches", r.and_branches.as_ref().map(|l| Tree::Arr(l.iter().map(|(i, e)| Tree::Arr(vec![Tree::Int(*i as i128), t_sev(e)])).collect())).unwrap_or(Tree::Null)),
+        ("event_time_started_at_subms_ns", Tree::Int(r.event_time_started_at_subms_ns as i128)),
+        ("event_time_deadline_subms_ns", Tree::Int(r.event_time_deadline_subms_ns as i128)),
     ])
 }
 fn t_sase(s: &SaseCheckpoint) -> Tree {
@@ -148,6 +157,8 @@ fn t_sase(s: &SaseCheckpoint) -> Tree {
         ("total_runs_completed", Tree::Int(s.total_runs_completed as i128)),
         ("total_runs_dropped", Tree::Int(s.total_runs_dropped as i128)),
         ("total_runs_evicted", Tree::Int(s.total_runs_evicted as i128)),
+        ("watermark_subms_ns", Tree::Int(s.watermark_subms_ns as i128)),
+        ("max_timestamp_subms_ns", Tree::Int(s.max_timestamp_subms_ns as i128)),
     ])
 }
 fn t_join(j: &JoinCheckpoint) -> Tree {
@@ -156,14 +167,21 @@ fn t_join(j: &JoinCheckpoint) -> Tree {
         ("sources", Tree::Arr(j.sources.iter().map(|s| Tree::Str(s.clone())).collect())),
         ("join_keys", map_t(&j.join_keys, |s| Tree::Str(s.clone()))),
         ("window_duration_ms", Tree::Int(j.window_duration_ms as i128)),
+        ("last_gc_ms", opt_i(j.last_gc_ms)), ("last_gc_subms_ns", Tree::Int(j.last_gc_subms_ns as i128)),
+        ("expiry_queue", j.expiry_queue.as_ref().map(|q| { Tree::Arr(q.iter().map(|(ms, sub, s, k)| Tree::Arr(vec![Tree::Int(*ms as i128), Tree::Int(*sub as i128), Tree::Str(s.clone()), Tree::Str(k.clone())])).collect()) }).unwrap_or(Tree::Null)),
     ])
 }
 fn t_wm(w: &WatermarkCheckpoint) -> Tree {
     obj(vec![
         ("sources", map_t(&w.sources, |s| obj(vec![
             ("watermark_ms", opt_i(s.watermark_ms)), ("max_timestamp_ms", opt_i(s.max_timestamp_ms)),
-            ("max_out_of_orderness_ms", Tree::Int(s.max_out_of_orderness_ms as i128))]))),
+            ("max_out_of_orderness_ms", Tree::Int(s.max_out_of_orderness_ms as i128)),
+            ("watermark_subms_ns", Tree::Int(s.watermark_subms_ns as i128)),
+            ("max_timestamp_subms_ns", Tree::Int(s.max_timestamp_subms_ns as i128))]))),
         ("effective_watermark_ms", opt_i(w.effective_watermark_ms)),
+        ("effective_watermark_subms_ns", Tree::Int(w.effective_watermark_subms_ns as i128)),
+        ("last_applied_watermark_ms", opt_i(w.last_applied_watermark_ms)),
+        ("last_applied_watermark_subms_ns", Tree::Int(w.last_applied_watermark_subms_ns as i128)),
     ])
 }
 pub fn t_engine(c: &EngineCheckpoint) -> Tree {
@@ -247,7 +265,7 @@ fn gen_value(r: &mut Rng, depth: u32, ctx: &mut Ctx2) -> Value {
 const TS_NS: &[i64] = &[0, 1, 999_999, 1_000_000, 1_000_001, 1_700_000_000_123_456_789, 1_700_000_000_123_000_000, -1, -999_999, -1_000_000, -1_000_001,
     i64::MAX, i64::MIN, i64::MAX - 999_999, 1_500_000, 2_999_999_999];
 fn gen_ts(r: &mut Rng, ctx: &mut Ctx2) -> i64 {
-    let t = match r.below(4) { 0 => *r.pick(TS_NS), 1 => r.range(0, 10_000) * 1_000_000, 2 => r.range(-5_000_000, 5_000_000_000), _ => (r.next() as i64) };
+    let t = match r.below(4) { 0 => *r.pick(TS_NS), 1 => r.range(0, 10_000) * 1_000_000, 2 => r.range(-5_000_000, 5_000_000_000), _ => r.next() as i64 };
     ctx.hit(if t.rem_euclid(1_000_000) == 0 { "ts:whole-ms" } else if t < 0 { "ts:sub-ms-negative" } else { "ts:sub-ms" });
     t
 }
@@ -274,6 +292,7 @@ impl Ctx2 {
 
 fn gen_sev(r: &mut Rng, c2: &mut Ctx2) -> SerializableEvent { SerializableEvent::from(&gen_event(r, c2)) }
 fn gen_sevs(r: &mut Rng, c2: &mut Ctx2, max: u64) -> Vec<SerializableEvent> { let n = r.below(max + 1); (0..n).map(|_| gen_sev(r, c2)).collect() }
+fn gen_sub(r: &mut Rng) -> u32 { if r.chance(1, 2) { 0 } else { r.below(1_000_000) as u32 } }
 fn gen_opt_ms(r: &mut Rng) -> Option<i64> { if r.chance(1, 3) { None } else { Some(gen_i64(r)) } }
 fn gen_name(r: &mut Rng) -> String { if r.chance(5, 6) { (*r.pick(&["S", "W", "J", "P", "s1", "s2", "main", "k:1", "default"])).to_string() } else { gen_str(r) } }
 fn gen_map<V>(r: &mut Rng, max: u64, mut f: impl FnMut(&mut Rng) -> V) -> HashMap<String, V> {
@@ -285,9 +304,9 @@ fn gen_map<V>(r: &mut Rng, max: u64, mut f: impl FnMut(&mut Rng) -> V) -> HashMa
 fn gen_wc(r: &mut Rng, c2: &mut Ctx2) -> WindowCheckpoint {
     c2.hit("ck:window");
     let parts = if r.chance(1, 2) { HashMap::new() } else {
-        gen_map(r, 3, |r| { let mut c = Ctx2::default(); PartitionedWindowCheckpoint { events: gen_sevs(r, &mut c, 3), window_start_ms: gen_opt_ms(r) } })
+        gen_map(r, 3, |r| { let mut c = Ctx2::default(); PartitionedWindowCheckpoint { events: gen_sevs(r, &mut c, 3), window_start_ms: gen_opt_ms(r), events_since_emit: if r.chance(1, 2) { None } else { Some(r.below(5) as usize) }, window_start_subms_ns: gen_sub(r) } })
     };
-    WindowCheckpoint { events: gen_sevs(r, c2, 3), window_start_ms: gen_opt_ms(r), last_emit_ms: gen_opt_ms(r), partitions: parts }
+    WindowCheckpoint { events: gen_sevs(r, c2, 3), window_start_ms: gen_opt_ms(r), last_emit_ms: gen_opt_ms(r), partitions: parts, events_since_emit: if r.chance(1, 2) { None } else { Some(r.below(5) as usize) }, window_start_subms_ns: gen_sub(r), last_emit_subms_ns: gen_sub(r) }
 }
 fn gen_run(r: &mut Rng, c2: &mut Ctx2) -> RunCheckpoint {
     c2.hit("ck:run");
@@ -300,6 +319,8 @@ fn gen_run(r: &mut Rng, c2: &mut Ctx2) -> RunCheckpoint {
         partition_key: if r.chance(1, 2) { None } else { Some(SerializableEvent::from(&mk_event("x", 0, vec![("k".into(), gen_value(r, 1, c2))])).fields.remove("k").unwrap()) },
         invalidated: r.chance(1, 4), pending_negation_count: r.below(3) as usize,
         kleene_events: if r.chance(1, 2) { None } else { Some(gen_sevs(r, c2, 3)) },
+        and_branches: if r.chance(2, 3) { None } else { let n = r.below(3); Some((0..n).map(|i| (i as usize, gen_sev(r, c2))).collect()) },
+        event_time_started_at_subms_ns: gen_sub(r), event_time_deadline_subms_ns: gen_sub(r),
     }
 }
 fn gen_sase(r: &mut Rng, c2: &mut Ctx2) -> SaseCheckpoint {
@@ -310,6 +331,7 @@ fn gen_sase(r: &mut Rng, c2: &mut Ctx2) -> SaseCheckpoint {
         partitioned_runs: gen_map(r, 2, |r| { let mut c = Ctx2::default(); let n = r.below(3); (0..n).map(|_| gen_run(r, &mut c)).collect() }),
         watermark_ms: gen_opt_ms(r), max_timestamp_ms: gen_opt_ms(r),
         total_runs_created: r.next(), total_runs_completed: r.below(100), total_runs_dropped: if r.chance(1, 2) { u64::MAX } else { 0 }, total_runs_evicted: r.below(3),
+        watermark_subms_ns: gen_sub(r), max_timestamp_subms_ns: gen_sub(r),
     }
 }
 fn gen_join(r: &mut Rng, c2: &mut Ctx2) -> JoinCheckpoint {
@@ -319,6 +341,8 @@ fn gen_join(r: &mut Rng, c2: &mut Ctx2) -> JoinCheckpoint {
         sources: (0..r.below(3)).map(|_| gen_name(r)).collect(),
         join_keys: gen_map(r, 2, |r| gen_key(r)),
         window_duration_ms: gen_i64(r),
+        last_gc_ms: gen_opt_ms(r), last_gc_subms_ns: gen_sub(r),
+        expiry_queue: if r.chance(1, 3) { None } else { let n = r.below(4); let mut q: Vec<(i64, u32, String, String)> = (0..n).map(|_| (gen_i64(r), gen_sub(r), gen_name(r), gen_key(r))).collect(); q.sort(); Some(q) },
     }
 }
 fn gen_engine_ck(r: &mut Rng, c2: &mut Ctx2) -> EngineCheckpoint {
@@ -331,7 +355,7 @@ fn gen_engine_ck(r: &mut Rng, c2: &mut Ctx2) -> EngineCheckpoint {
         events_processed: r.next(), output_events_emitted: r.below(1000),
         watermark_state: if r.chance(1, 2) { None } else {
             c2.hit("ck:watermark");
-            Some(WatermarkCheckpoint { sources: gen_map(r, 3, |r| SourceWatermarkCheckpoint { watermark_ms: gen_opt_ms(r), max_timestamp_ms: gen_opt_ms(r), max_out_of_orderness_ms: gen_i64(r) }), effective_watermark_ms: gen_opt_ms(r) })
+            Some(WatermarkCheckpoint { sources: gen_map(r, 3, |r| SourceWatermarkCheckpoint { watermark_ms: gen_opt_ms(r), max_timestamp_ms: gen_opt_ms(r), max_out_of_orderness_ms: gen_i64(r), watermark_subms_ns: gen_sub(r), max_timestamp_subms_ns: gen_sub(r) }), effective_watermark_ms: gen_opt_ms(r), effective_watermark_subms_ns: gen_sub(r), last_applied_watermark_ms: gen_opt_ms(r), last_applied_watermark_subms_ns: gen_sub(r) })
         },
         distinct_states: gen_map(r, 2, |r| DistinctCheckpoint { keys: (0..r.below(4)).map(|_| gen_str(r)).collect() }),
         limit_states: gen_map(r, 2, |r| LimitCheckpoint { max: r.below(10) as usize, count: r.next() as usize }),
@@ -442,11 +466,302 @@ fn run_c20(ctx: &mut Ctx) {
         ctx.directive("new");
         case_detect(ctx, &c);
     }
+    // checkpoints of real engine states (the generated programs of C19)
+    let rt = tokio::runtime::Builder::new_current_thread().enable_all().build().unwrap();
+    for _ in 0..(if ctx.thorough { 600 } else { 60 }) { let sc = gen_scenario(ctx); run_scenario(ctx, &rt, &sc, false, true); }
+}
+
+
+// ---------------------------------------------------------------------------------------------
+// C19: interrupted (checkpoint -> JSON -> freshly loaded engine -> restore -> continue) vs uninterrupted
+// ---------------------------------------------------------------------------------------------
+use varpulis_runtime::engine::Engine;
+
+#[derive(Clone)]
+enum Op { Ev(Event), Wm(String, i64), Var(String, Value) }
+
+struct Prog { text: String, types: Vec<&'static str>, tags: Vec<&'static str>, wm: bool, var: bool }
+
+fn window_spec(r: &mut Rng, tags: &mut Vec<&'static str>) -> String {
+    match r.below(7) {
+        0 => { tags.push("tumbling"); format!("{}s", 1 + r.below(3)) }
+        1 => { tags.push("sliding"); let sl = 1 + r.below(2); format!("{}s, sliding: {}s", sl + r.below(3), sl) }
+        2 => { tags.push("count"); format!("{}", 2 + r.below(3)) }
+        3 | 4 => { tags.push("slidingCount"); let sl = 1 + r.below(3); format!("{}, sliding: {}", 2 + r.below(3), sl) }
+        5 => { tags.push("session"); format!("session: {}s", 1 + r.below(2)) }
+        _ => { tags.push("tumbling-ms"); format!("{}ms", 500 + 250 * r.below(6)) }
+    }
+}
+
+fn gen_prog(r: &mut Rng) -> Prog {
+    let mut tags: Vec<&'static str> = Vec::new();
+    let mut wm = false;
+    let mut var = false;
+    let kind = r.below(20);
+    let (text, types): (String, Vec<&'static str>) = match kind {
+        0..=6 => {
+            // windows, optionally partitioned, with or without aggregation
+            let part = r.chance(2, 5);
+            let w = window_spec(r, &mut tags);
+            if part { tags.push("partitioned"); }
+            wm = r.chance(1, 4) && !tags.contains(&"count") && !tags.contains(&"slidingCount");
+            let mut t = String::from("stream W = T");
+            if wm { tags.push("watermark"); t.push_str(&format!("\n    .watermark(out_of_order: {}s)", r.below(3))); if r.chance(1, 2) { t.push_str("\n    .allowed_lateness(1s)"); tags.push("lateness"); } }
+            if part { t.push_str("\n    .partition_by(k)"); }
+            t.push_str(&format!("\n    .window({})", w));
+            if r.chance(3, 5) { tags.push("aggregate"); t.push_str("\n    .aggregate(n: count(), s: sum(x), lo: min(x))\n    .emit(n: n, s: s, lo: lo)"); }
+            else { t.push_str("\n    .emit(id: id, x: x)"); }
+            if wm && r.chance(2, 3) {
+                // a second watermarked source: the effective watermark is the minimum over both
+                tags.push("two-sources");
+                t.push_str(&format!("\n\nstream WU = U\n    .watermark(out_of_order: {}s)\n    .window({}s)\n    .aggregate(n: count())\n    .emit(un: n)", r.below(3), 1 + r.below(3)));
+                (t, vec!["T", "T", "U"])
+            } else { (t, vec!["T"]) }
+        }
+        7..=12 => {
+            // sequences
+            let form = r.below(9);
+            let part = r.chance(1, 3);
+            let mut t = match form {
+                0 => { tags.push("seq2"); "stream S = A as a\n    -> B where x == a.x as b".to_string() }
+                1 => { tags.push("seq3"); "stream S = A as a\n    -> B as b\n    -> C where x >= a.x as c".to_string() }
+                2 => { tags.push("kleene-mid"); "stream S = A as a\n    -> all B as b\n    -> C as c".to_string() }
+                3 => { tags.push("kleene-mid-pred"); "stream S = A as a\n    -> all B where id == a.id as b\n    -> C as c".to_string() }
+                4 => { tags.push("kleene-self-ref"); "stream S = A as a\n    -> all B where x >= b.x as b\n    -> C as c".to_string() }
+                5 => { tags.push("kleene-trailing"); "stream S = A as a\n    -> all B where id == a.id as b".to_string() }
+                6 => { tags.push("seq-not"); "stream S = A as a\n    -> B as b\n    .not(N where id == a.id)".to_string() }
+                7 => { tags.push("seq-within"); "stream S = A as a\n    -> B as b\n    -> C as c\n    .within(1h)".to_string() }
+                _ => { tags.push("seq-after-kleene"); "stream S = A as a\n    -> all B as b\n    -> C as c\n    -> D as d".to_string() }
+            };
+            if part { tags.push("seq-partitioned"); t.push_str("\n    .partition_by(k)"); }
+            t.push_str(if form == 8 { "\n    .emit(ax: a.x, bx: b.x, cx: c.x, dx: d.x)" } else if form == 0 || form == 5 || form == 6 { "\n    .emit(ax: a.x, bx: b.x, bid: b.id)" } else { "\n    .emit(ax: a.x, bx: b.x, cx: c.x)" });
+            (t, vec!["A", "B", "C", "N", "D"])
+        }
+        13 | 14 => {
+            // named patterns: AND, NOT inside SEQ, OR
+            let (p, tag): (&str, &'static str) = match r.below(5) {
+                0 => ("pattern P = A AND B", "pat-and"),
+                1 => ("pattern P = SEQ(A, B) AND C", "pat-seq-and"),
+                2 => ("pattern P = SEQ(A, NOT N, C)", "pat-seq-not"),
+                3 => ("pattern P = A OR B", "pat-or"),
+                _ => ("pattern P = SEQ(A as a, B+ as b, C as c)", "pat-kleene"),
+            };
+            tags.push(tag);
+            (format!("{}\n\nstream S = P\n    .emit(m: \"hit\")", p), vec!["A", "B", "C", "N"])
+        }
+        15 | 16 => {
+            tags.push("join");
+            let w = 1 + r.below(4);
+            (format!("stream J = join(A, B)\n    .on(A.k == B.k)\n    .window({}s)\n    .emit(k: A.k, ax: A.x, bx: B.x)", w), vec!["A", "B"])
+        }
+        17 => { tags.push("distinct"); ((if r.chance(1, 2) { "stream D = T\n    .distinct(k)\n    .emit(k: k, id: id)" } else { "stream D = T\n    .distinct(x)\n    .emit(x: x, id: id)" }).to_string(), vec!["T"]) }
+        18 => { tags.push("limit"); let t = if r.chance(1, 3) { "stream L = T\n    .first()\n    .emit(id: id)".to_string() } else { format!("stream L = T\n    .limit({})\n    .emit(id: id)", 1 + r.below(4)) }; (t, vec!["T"]) }
+        _ => { tags.push("variables"); var = true; ("var counter: int = 0\nvar label: str = \"x\"\n\nstream V = T\n    .emit(id: id)".to_string(), vec!["T"]) }
+    };
+    // second stream in the same program now and then (two independent states in one checkpoint)
+    let (text, types) = if r.chance(1, 5) && !text.contains("stream W") {
+        let mut t2 = Vec::new();
+        let w = window_spec(r, &mut t2);
+        tags.extend(t2); tags.push("two-streams");
+        let mut ty = types.clone(); ty.push("T");
+        (format!("{}\n\nstream W2 = T\n    .window({})\n    .aggregate(n: count())\n    .emit(n: n)", text, w), ty)
+    } else { (text, types) };
+    Prog { text, types, tags, wm, var }
+}
+
+fn gen_ops(r: &mut Rng, p: &Prog, n: usize, c2: &mut Ctx2) -> Vec<Op> {
+    let mut ops = Vec::new();
+    let mut t_ms: i64 = r.range(0, 3) * 1000;
+    let subms = r.chance(1, 4);           // a scenario either has sub-millisecond timestamps or not
+    let ooo = r.chance(1, 5);
+    if subms { c2.hit("ops:sub-ms-scenario"); } else { c2.hit("ops:whole-ms-scenario"); }
+    if ooo { c2.hit("ops:out-of-order-scenario"); }
+    for _ in 0..n {
+        t_ms += *r.pick(&[0i64, 1, 250, 500, 500, 1000, 1000, 1500, 2500, 4000]);
+        if p.wm && r.chance(1, 6) {
+            let src = if r.chance(5, 6) { (*r.pick(&p.types)).to_string() } else { "upstream".to_string() };
+            ops.push(Op::Wm(src, t_ms + r.range(-1000, 2000)));
+            continue;
+        }
+        if p.var && r.chance(1, 3) {
+            let mut c = Ctx2::default();
+            let (name, v) = if r.chance(1, 2) { ("counter", Value::Int(gen_i64(r))) } else { ("label", gen_value(r, 1, &mut c)) };
+            ops.push(Op::Var(name.to_string(), v));
+            continue;
+        }
+        let ty = *r.pick(&p.types);
+        let mut ts_ns = t_ms * 1_000_000;
+        if ooo && r.chance(1, 3) { ts_ns -= r.range(0, 3000) * 1_000_000; }
+        if subms { ts_ns += r.range(0, 999_999); }
+        let mut f: Vec<(String, Value)> = vec![("id".into(), Value::Int(r.range(0, 2)))];
+        if r.chance(9, 10) { f.push(("x".into(), Value::Int(r.range(-2, 3)))); }
+        if r.chance(9, 10) { f.push(("k".into(), Value::Str((*r.pick(&["a", "b", "c"])).into()))); }
+        if r.chance(1, 8) { f.push(("v".into(), Value::Float(r.range(-8, 8) as f64 / 4.0))); }
+        ops.push(Op::Ev(mk_event(ty, ts_ns, f)));
+    }
+    ops
+}
+
+fn op_text(o: &Op) -> String {
+    match o {
+        Op::Ev(e) => format!("ev {}", t_event(e).text()),
+        Op::Wm(s, ms) => format!("wm {} {}", s, ms),
+        Op::Var(n, v) => format!("var {} {}", n, t_value(v).text()),
+    }
+}
+
+/// canonical rendering of one output event; wall-clock fields dropped
+fn out_text(e: &Event, with_ts: bool) -> String {
+    let mut fs: Vec<(String, String)> = e.data.iter()
+        .filter(|(k, _)| &***k != "match_duration_ms" && &***k != "timestamp" && &***k != "processing_time_ms")
+        .map(|(k, v)| (k.to_string(), t_value(v).text())).collect();
+    fs.sort();
+    let body = fs.into_iter().map(|(k, v)| format!("{}={}", k, v)).collect::<Vec<_>>().join(",");
+    if with_ts { format!("{}@{}({})", e.event_type, e.timestamp.timestamp_nanos_opt().unwrap_or(0), body) } else { format!("{}({})", e.event_type, body) }
+}
+
+struct Sim { engine: Engine, rx: tokio::sync::mpsc::Receiver<Event> }
+
+fn new_sim(ast: &varpulis_core::ast::Program, wm: bool) -> Result<Sim, String> {
+    let (tx, rx) = tokio::sync::mpsc::channel::<Event>(100_000);
+    let mut engine = Engine::new(tx);
+    engine.load(ast)?;
+    if wm { engine.enable_watermark_tracking(); }
+    Ok(Sim { engine, rx })
+}
+
+impl Sim {
+    /// apply one operation, return the canonical (sorted) outputs it caused
+    fn apply(&mut self, rt: &tokio::runtime::Runtime, o: &Op, with_ts: bool) -> Vec<String> {
+        let r = match o {
+            Op::Ev(e) => rt.block_on(self.engine.process(e.clone())),
+            Op::Wm(s, ms) => rt.block_on(self.engine.advance_external_watermark(s, *ms)),
+            Op::Var(n, v) => self.engine.set_variable(n, v.clone()),
+        };
+        let mut outs = Vec::new();
+        if let Err(e) = r { outs.push(format!("ERR:{}", e.chars().take(60).collect::<String>().replace(' ', "_"))); }
+        while let Ok(e) = self.rx.try_recv() { outs.push(out_text(&e, with_ts)); }
+        outs.sort();
+        outs
+    }
+    /// observable state at the end: counters and variables
+    fn final_obs(&self) -> String {
+        let m = self.engine.metrics();
+        let mut vars: Vec<String> = self.engine.variables().iter().map(|(k, v)| format!("{}={}", k, t_value(v).text())).collect();
+        vars.sort();
+        format!("processed={} emitted={} vars[{}]", m.events_processed, m.output_events_emitted, vars.join(","))
+    }
+}
+
+fn run_tail(rt: &tokio::runtime::Runtime, sim: &mut Sim, ops: &[Op], with_ts: bool) -> Vec<String> {
+    let mut all: Vec<String> = ops.iter().map(|o| sim.apply(rt, o, with_ts).join(" ")).collect();
+    all.push(sim.final_obs());
+    all
+}
+
+struct Scenario { prog: Prog, ops: Vec<Op> }
+
+/// one scenario: every cut point. Emits `cut` cases (C19) and/or `ck engine` cases (C20).
+fn run_scenario(ctx: &mut Ctx, rt: &tokio::runtime::Runtime, sc: &Scenario, emit_cuts: bool, emit_ck: bool) {
+    let ast = match varpulis_parser::parse(&sc.prog.text) {
+        Ok(a) => a,
+        Err(e) => { eprintln!("generator error: program does not parse: {:?}\n{}", e, sc.prog.text); std::process::exit(3); }
+    };
+    let mk = || match new_sim(&ast, sc.prog.wm) { Ok(s) => s, Err(e) => { eprintln!("generator error: program does not load: {}\n{}", e, sc.prog.text); std::process::exit(3); } };
+    // calibration: are output timestamps deterministic for this program? (aggregation results carry wall-clock time)
+    let with_ts = { let a = run_tail(rt, &mut mk(), &sc.ops, true); let b = run_tail(rt, &mut mk(), &sc.ops, true); a == b };
+    let base = run_tail(rt, &mut mk(), &sc.ops, with_ts);
+    let again = run_tail(rt, &mut mk(), &sc.ops, with_ts);
+    if base != again { ctx.count("c19:nondeterministic-program-skipped"); return; }
+    ctx.directive("new");
+    ctx.directive(&format!("prog {} | {}", sc.prog.tags.join(","), sc.prog.text.replace('\n', " ⏎ ")));
+    for o in &sc.ops { ctx.directive(&format!("op {}", op_text(o))); }
+    ctx.count(if with_ts { "c19:output-timestamps-compared" } else { "c19:output-timestamps-wall-clock-dropped" });
+    for t in &sc.prog.tags { ctx.count(&format!("prog:{}", t)); }
+    // the uninterrupted engine, checkpointed before every operation and after the last
+    let mut main = mk();
+    for k in 0..=sc.ops.len() {
+        let cp = main.engine.create_checkpoint();
+        if emit_ck && (k == sc.ops.len() || k % 3 == 1) {
+            case_ck!(ctx, "engine", cp.clone(), EngineCheckpoint, t_engine);
+            ctx.count("ck:from-engine");
+        }
+        if emit_cuts {
+            let l = t_engine(&cp).text();
+            let res = catch(std::panic::AssertUnwindSafe(|| {
+                let bytes = match codec::serialize(&cp, CheckpointFormat::active()) { Ok(b) => b, Err(_) => return "unreadable serialize".to_string() };
+                let cp2: EngineCheckpoint = match codec::deserialize(&bytes) { Ok(c) => c, Err(_) => return "unreadable deserialize".to_string() };
+                let mut fresh = mk();
+                if fresh.engine.restore_checkpoint(&cp2).is_err() { return "unreadable restore".to_string(); }
+                let got = run_tail(rt, &mut fresh, &sc.ops[k..], with_ts);
+                let exp = &base[k..];
+                if got.as_slice() == exp { "same".to_string() } else {
+                    let i = (0..exp.len()).find(|i| got.get(*i) != exp.get(*i)).unwrap_or(0);
+                    format!("diff at={} exp=[{}] got=[{}]", k + i, exp.get(i).cloned().unwrap_or_default(), got.get(i).cloned().unwrap_or_default())
+                }
+            })).unwrap_or_else(|_| "panic".into());
+            if res == "same" { ctx.count("cut:same"); } else { ctx.count("cut:DIFFERENT"); }
+            let subms = sc.ops[..k].iter().any(|o| matches!(o, Op::Ev(e) if e.timestamp.timestamp_subsec_nanos() % 1_000_000 != 0));
+            ctx.case(&format!("cut {} {} tags={} subms={} {}", k, sc.ops.len(), sc.prog.tags.join(","), if subms { 1 } else { 0 }, l), &res);
+        }
+        if k < sc.ops.len() { main.apply(rt, &sc.ops[k], with_ts); }
+    }
+}
+
+fn gen_scenario(ctx: &mut Ctx) -> Scenario {
+    let mut c2 = Ctx2::default();
+    let prog = gen_prog(&mut ctx.rng);
+    let n = 4 + ctx.rng.below(if ctx.thorough { 14 } else { 9 }) as usize;
+    let ops = gen_ops(&mut ctx.rng, &prog, n, &mut c2);
+    c2.flush(ctx);
+    Scenario { prog, ops }
+}
+
+fn wev(ty: &str, ts_ns: i64, id: i64, x: i64, k: &str) -> Op {
+    Op::Ev(mk_event(ty, ts_ns, vec![("id".into(), Value::Int(id)), ("x".into(), Value::Int(x)), ("k".into(), Value::Str(k.into()))]))
+}
+
+/// minimal witnesses of every repaired defect and of every listed finding: replayed on every run
+fn witness_scenarios() -> Vec<Scenario> {
+    const S: i64 = 1_000_000_000;
+    const MS: i64 = 1_000_000;
+    let mk = |text: &str, tags: Vec<&'static str>, wm: bool, ops: Vec<Op>| Scenario { prog: Prog { text: text.to_string(), types: vec![], tags, wm, var: false }, ops };
+    vec![
+        mk("stream W = T\n    .window(3, sliding: 2)\n    .emit(id: id)", vec!["witness", "slidingCount"], false,
+           (0..7).map(|i| wev("T", i * S, i, 0, "a")).collect()),
+        mk("stream W = T\n    .partition_by(k)\n    .window(2, sliding: 1)\n    .emit(id: id)", vec!["witness", "slidingCount", "partitioned"], false,
+           (0..6).map(|i| wev("T", i * S, i, 0, if i % 2 == 0 { "a" } else { "b" })).collect()),
+        mk("pattern P = A AND B\n\nstream S = P\n    .emit(m: \"hit\")", vec!["witness", "pat-and"], false,
+           vec![wev("A", 0, 0, 0, "a"), wev("B", S, 1, 0, "a"), wev("A", 2 * S, 2, 0, "a")]),
+        mk("stream W = T\n    .window(1s)\n    .emit(id: id)", vec!["witness", "tumbling"], false,
+           vec![wev("T", MS + 500_000, 0, 0, "a"), wev("T", S + MS + 300_000, 1, 0, "a"), wev("T", S + MS + 600_000, 2, 0, "a")]),
+        mk("stream W = T\n    .window(2s, sliding: 1s)\n    .emit(id: id)", vec!["witness", "sliding"], false,
+           vec![wev("T", MS + 500_000, 0, 0, "a"), wev("T", S + MS + 300_000, 1, 0, "a"), wev("T", S + MS + 600_000, 2, 0, "a")]),
+        mk("stream W = T\n    .window(session: 1s)\n    .emit(id: id)", vec!["witness", "session"], false,
+           vec![wev("T", MS + 100_000, 0, 0, "a"), wev("T", S + MS + 600_000, 1, 0, "a"), wev("T", 5 * S, 2, 0, "a")]),
+        mk("stream S = A as a\n    -> all B where x >= b.x as b\n    -> C as c\n    .emit(ax: a.x, bx: b.x, cx: c.x)", vec!["witness", "kleene-self-ref"], false,
+           vec![wev("A", 0, 0, 0, "a"), wev("B", S, 1, 1, "a"), wev("B", 2 * S, 2, 2, "a"), wev("C", 3 * S, 3, 0, "a")]),
+        mk("stream J = join(A, B)\n    .on(A.k == B.k)\n    .window(10s)\n    .emit(k: A.k, ax: A.x, bx: B.x)", vec!["witness", "join"], false,
+           vec![wev("A", 0, 0, 7, "a"), wev("A", 9_800 * MS, 1, 0, "z"), wev("A", 10_300 * MS, 2, 0, "z"), wev("A", 10_400 * MS, 3, 0, "z"), wev("B", 5 * S, 4, 8, "a")]),
+        mk("stream J = join(A, B)\n    .on(A.k == B.k)\n    .window(10s)\n    .emit(k: A.k, ax: A.x, bx: B.x)", vec!["witness", "join"], false,
+           vec![wev("A", 0, 0, 7, "a"), wev("A", 10 * S, 1, 0, "z"), wev("A", 12 * S, 2, 0, "z"), wev("B", 5 * S, 4, 8, "a")]),
+        mk("stream W = T\n    .watermark(out_of_order: 0s)\n    .window(5s)\n    .aggregate(n: count())\n    .emit(n: n)\n\nstream WU = U\n    .watermark(out_of_order: 0s)\n    .window(1s)\n    .aggregate(n: count())\n    .emit(un: n)",
+           vec!["witness", "watermark", "two-sources"], true,
+           vec![wev("T", 12 * S, 0, 0, "a"), wev("U", 2 * S, 1, 0, "a"), Op::Wm("U".into(), 8000), wev("U", 9 * S, 2, 0, "a")]),
+    ]
+}
+
+fn run_c19(ctx: &mut Ctx) {
+    let rt = tokio::runtime::Builder::new_current_thread().enable_all().build().unwrap();
+    for sc in witness_scenarios() { run_scenario(ctx, &rt, &sc, true, false); }
+    let n = if ctx.thorough { 4000 } else { 350 };
+    for _ in 0..n { let sc = gen_scenario(ctx); run_scenario(ctx, &rt, &sc, true, false); }
 }
 
 pub fn run(ctx: &mut Ctx, name: &str) {
     match name {
         "C20" => run_c20(ctx),
-        _ => { run_c20(ctx); }
+        "C19" => run_c19(ctx),
+        _ => { run_c20(ctx); run_c19(ctx); }
     }
 }
